@@ -73,3 +73,10 @@ class CustomResult:
     replayed: int = 0
     wall_s: float = 0.0
     extra: dict = field(default_factory=dict)
+
+
+def native(fn):
+    """Mark a harness helper to be run natively by CPython (not interpreted): for code that only
+    prepares concrete inputs and is not the subject of the lemma."""
+    fn._symx_native = True
+    return fn
